@@ -566,6 +566,7 @@ ACCEPTED_NOT_REFUSED = {
     ("create_data_array", "unsupported_dtype:complex"): "complex data is stored (h5py compound type)",
     ("data", "append:axis_out_of_range"): "append(axis >= rank) is not refused (overwrites in place) - outside C12",
     ("dimension", "link:negative_index"): "a second negative index is rejected only for some ranks",
+    ("dimension", "link:index_of_floats"): "a float index vector [-1.0, ...] is accepted",
 }
 CELL_KEYS = sorted(k for k in CELLS if k not in ACCEPTED_NOT_REFUSED)
 
@@ -803,4 +804,25 @@ def _copy_cells():
 
 
 _copy_cells()
+CELL_KEYS = sorted(k for k in CELLS if k not in ACCEPTED_NOT_REFUSED)
+
+
+# ---------------------------------------------------------------- more dimension-link argument classes
+def _more_link_cells():
+    def valid_index(a):
+        return [-1] + [0] * (len(a.shape) - 1)
+    _dim_cell("link:index_as_ndarray", ("range", "set"), lambda dh, a: dh.link_data_array(a, np.array(valid_index(a))))
+    _dim_cell("link:index_nested_list", ("range", "set"), lambda dh, a: dh.link_data_array(a, [[i] for i in valid_index(a)]))
+    _dim_cell("link:index_of_floats", ("range", "set"), lambda dh, a: dh.link_data_array(a, [-1.0] + [0.5] * (len(a.shape) - 1)))
+    _dim_cell("link:index_is_none", ("range", "set"), lambda dh, a: dh.link_data_array(a, None))
+    _dim_cell("link:target_not_an_array", ("range", "set"), lambda dh, a: dh.link_data_array("not-an-array", [-1]))
+    _dim_cell("link:index_out_of_extent", ("range", "set"),
+              lambda dh, a: dh.link_data_array(a, [-1] + [a.shape[i] + 3 for i in range(1, len(a.shape))]) if len(a.shape) > 1
+              else dh.link_data_array(a, [5, -1]))
+    _dim_append_cell("range_self:index_as_ndarray", lambda ah: ah.append_range_dimension_using_self(np.array([-1] + [0] * (len(ah.shape) - 1))))
+    _dim_append_cell("range_self:index_nested_list", lambda ah: ah.append_range_dimension_using_self([[-1]] + [[0]] * (len(ah.shape) - 1)))
+    _dim_append_cell("range_self:text_array", lambda ah: ah.append_range_dimension_using_self("x"))
+
+
+_more_link_cells()
 CELL_KEYS = sorted(k for k in CELLS if k not in ACCEPTED_NOT_REFUSED)
